@@ -147,6 +147,78 @@ def prepare_scenario(mesh, c, k):
     return {"V": [vec(v) for v in mesh.vertices], "F": [[int(x) for x in f] for f in mesh.faces]}
 
 
+def rep_num(x, how):
+    """the same number in another representation (only when it is exactly representable there)"""
+    if how == "int64":
+        return np.int64(x)
+    if how == "int32":
+        return np.int32(x)
+    if how == "f64":
+        return np.float64(x)
+    if how == "f32":
+        return np.float32(x) if float(np.float32(x)) == float(x) else x
+    if how == "int":
+        return int(x) if float(x) == int(x) else x
+    if how == "flag_int":
+        return 1 if x else 0
+    if how == "flag_np":
+        return np.bool_(x)
+    return x
+
+
+def R(c, name, x):
+    return rep_num(x, (c.get("rep") or {}).get(name))
+
+
+def container(items, how):
+    if how == "tuple":
+        return tuple(items)
+    if how == "array":
+        return np.array(items, dtype=float)
+    if how == "gen":
+        return (x for x in items)
+    return list(items)
+
+
+def call(fn, c, required, optional):
+    """optional = [(name, value, default)] in signature order. c["form"]: "kw" (optional arguments by keyword),
+    "pos" (everything positional), "omit" (arguments equal to their default are left out)"""
+    form = c.get("form", "kw")
+    if form == "pos":
+        return fn(*required, *[v for _, v, _ in optional])
+    kw = {}
+    for name, v, d in optional:
+        if form == "omit" and type(v) is type(d) and v == d:
+            continue
+        kw[name] = v
+    return fn(*required, **kw)
+
+
+def mesh_attr_names(mesh):
+    out = {}
+    for cont in ("vertices", "edges", "faces", "face_corners"):
+        if hasattr(mesh, cont):
+            out[cont] = sorted(str(x) for x in getattr(mesh, cont).attributes)
+    return out
+
+
+def zero_result(r):
+    """the caller overwrites what it was given (arrays in place, point-cloud vertices in place)"""
+    import mouette as M
+    try:
+        if isinstance(r, tuple):
+            for x in r:
+                zero_result(x)
+        elif isinstance(r, np.ndarray):
+            r *= 0
+            r += 12345.0
+        else:
+            for v in r.vertices:
+                v *= 0
+    except Exception:
+        pass
+
+
 def fnet(P):
     return [[float(x) for x in p] for p in P]
 
@@ -204,23 +276,50 @@ def run_case(c):
         if k in ("polyline", "surface") and c.get("pre"):
             # multi-step scenario: geometric attributes exist on the mesh BEFORE its vertices move
             mesh_info = prepare_scenario(mesh, c, k)
+        sampler = None
+        snap = None
+        if k in ("sphere", "ball"):
+            center = M.Vec(*c["center"])
+            fn = sampling.sample_sphere if k == "sphere" else sampling.sample_ball
+            sampler = lambda: call(fn, c, [center, R(c, "radius", c["radius"]), R(c, "n", c["n"])],
+                                   [("return_point_cloud", R(c, "pc", c["pc"]), False)])
+            snap = lambda: [vec(center)]
+        elif k == "box":
+            box = AABB(list(c["p1"]), list(c["p2"]))
+            opt = [("mode", c["mode"], "uniform"), ("return_point_cloud", R(c, "pc", c["pc"]), False)]
+            sampler = lambda: call(sampling.sample_AABB, c, [box, R(c, "n", c["n"])], opt)
+            snap = lambda: [vec(box.mini), vec(box.maxi)]
+        elif k == "polyline":
+            sampler = lambda: call(sampling.sample_polyline, c, [mesh, R(c, "n", c["n"])],
+                                   [("return_point_cloud", R(c, "pc", c["pc"]), False)])
+            snap = lambda: [[vec(v) for v in mesh.vertices], [[int(a), int(b)] for a, b in mesh.edges], mesh_attr_names(mesh)]
+        elif k == "surface":
+            sampler = lambda: call(sampling.sample_surface, c, [mesh, R(c, "n", c["n"])],
+                                   [("return_point_cloud", R(c, "pc", c["pc"]), False),
+                                    ("return_normals", R(c, "normals", c["normals"]), False)])
+            snap = lambda: [[vec(v) for v in mesh.vertices], [[int(x) for x in f] for f in mesh.faces], mesh_attr_names(mesh)]
+        before = snap() if snap else None
+        if sampler is not None and c.get("twice"):
+            # the same request twice: the first result is overwritten by the caller before the second is observed
+            try:
+                np.random.seed(c.get("seed", 0))
+                zero_result(sampler())
+            except Exception:
+                pass
+            np.random.seed(c.get("seed", 0))
         rec.install()
         try:
-            if k == "sphere":
-                r = sampling.sample_sphere(M.Vec(*c["center"]), c["radius"], c["n"], return_point_cloud=c["pc"])
-                obs["out"] = points_of(r, c["pc"])
-            elif k == "ball":
-                r = sampling.sample_ball(M.Vec(*c["center"]), c["radius"], c["n"], return_point_cloud=c["pc"])
+            if k in ("sphere", "ball"):
+                r = sampler()
                 obs["out"] = points_of(r, c["pc"])
             elif k == "box":
-                box = AABB(list(c["p1"]), list(c["p2"]))
-                r = sampling.sample_AABB(box, c["n"], mode=c["mode"], return_point_cloud=c["pc"])
+                r = sampler()
                 obs["out"] = points_of(r, c["pc"], dim=len(c["p1"]))
             elif k == "polyline":
-                r = sampling.sample_polyline(mesh, c["n"], return_point_cloud=c["pc"])
+                r = sampler()
                 obs["out"] = points_of(r, c["pc"])
             elif k == "surface":
-                r = sampling.sample_surface(mesh, c["n"], return_point_cloud=c["pc"], return_normals=c["normals"])
+                r = sampler()
                 if c["normals"] and not c["pc"]:
                     r, nn = r
                     obs["normals"] = [vec(x) for x in np.asarray(nn, dtype=float).reshape((-1, 3))]
@@ -229,30 +328,49 @@ def run_case(c):
                     obs["normals"] = [vec(at[i]) for i in range(len(r.vertices))]
                 obs["out"] = points_of(r, c["pc"])
             elif k == "curve":
-                cu = M.splines.BezierCurve(fnet(c["P"]))
+                cu = M.splines.BezierCurve(container(fnet(c["P"]), c.get("net_as")))
+                net0 = [vec(p) for p in cu.pts]
                 alias_steps(cu, c)
-                obs["out"] = vec(cu.evaluate(c["t"]))
+                obs["out"] = vec(cu.evaluate(R(c, "t", c["t"])))
+                before, snap = [net0], (lambda: [[vec(p) for p in cu.pts]])
             elif k == "patch":
-                pa = M.splines.BezierPatch([fnet(row) for row in c["rows"]])
+                pa = M.splines.BezierPatch(container([container(fnet(row), c.get("net_as")) for row in c["rows"]], c.get("net_as")
+                                                     if c.get("net_as") != "array" else None))
+                net0 = [[vec(p) for p in row] for row in pa.pts]
                 alias_steps(pa, c)
-                obs["out"] = vec(pa.evaluate(c["u"], c["v"]))
+                obs["out"] = vec(pa.evaluate(R(c, "t", c["u"]), R(c, "t", c["v"])))
+                before, snap = [net0], (lambda: [[[vec(p) for p in row] for row in pa.pts]])
             elif k == "polylinex":
-                cu = M.splines.BezierCurve(fnet(c["P"]))
+                cu = M.splines.BezierCurve(container(fnet(c["P"]), c.get("net_as")))
+                net0 = [vec(p) for p in cu.pts]
                 alias_steps(cu, c)
-                kwargs = {}
-                if c["n_pts"] is not None:
-                    kwargs["n_pts"] = c["n_pts"]
-                if c["custom"] is not None:
-                    kwargs["custom_pos"] = list(c["custom"])
-                pl = cu.as_polyline(**kwargs)
+                custom = None if c["custom"] is None else container([float(x) for x in c["custom"]], c.get("custom_as"))
+                if c.get("form") == "pos":
+                    pl = cu.as_polyline(R(c, "n", c["n_pts"] if c["n_pts"] is not None else 100), custom)
+                else:
+                    kwargs = {}
+                    if c["n_pts"] is not None:
+                        kwargs["n_pts"] = R(c, "n", c["n_pts"])
+                    if c["custom"] is not None or c.get("form") == "kw":
+                        kwargs["custom_pos"] = custom
+                    pl = cu.as_polyline(**kwargs)
+                before, snap = [net0], (lambda: [[vec(p) for p in cu.pts]])
                 at = pl.vertices.get_attribute("t")
                 obs["verts"] = [vec(v) for v in pl.vertices]
                 obs["t"] = [fl(at[i]) for i in range(len(pl.vertices))]
                 obs["edges"] = [[int(a), int(b)] for a, b in pl.edges]
             elif k == "surfacex":
-                pa = M.splines.BezierPatch([fnet(row) for row in c["rows"]])
+                pa = M.splines.BezierPatch(container([container(fnet(row), c.get("net_as")) for row in c["rows"]], c.get("net_as")
+                                                     if c.get("net_as") != "array" else None))
+                net0 = [[vec(p) for p in row] for row in pa.pts]
                 alias_steps(pa, c)
-                sm = pa.as_surface(c["n1"], c["n2"])
+                if c["n1"] is None:
+                    sm = pa.as_surface()
+                elif c.get("form") == "kw":
+                    sm = pa.as_surface(n2=R(c, "n", c["n2"]), n1=R(c, "n", c["n1"]))
+                else:
+                    sm = pa.as_surface(R(c, "n", c["n1"]), R(c, "n", c["n2"]))
+                before, snap = [net0], (lambda: [[[vec(p) for p in row] for row in pa.pts]])
                 at = sm.vertices.get_attribute("uv_coords")
                 obs["verts"] = [vec(v) for v in sm.vertices]
                 obs["uv"] = [vec(at[i]) for i in range(len(sm.vertices))]
@@ -276,6 +394,10 @@ def run_case(c):
                 raise RuntimeError("unknown case kind " + k)
         finally:
             rec.remove()
+        if snap is not None and before is not None:
+            after = snap()
+            if json.dumps(after, sort_keys=True) != json.dumps(before, sort_keys=True):
+                obs["inputs_changed"] = "before: %s  after: %s" % (json.dumps(before)[:300], json.dumps(after)[:300])
     except Exception as ex:  # noqa
         obs = {"exc": exc_kind(ex)}
     obs["draws"] = rec.calls
